@@ -46,6 +46,19 @@ def editParamG (g : Graph) (n : NodeId) (c : Content) : Option Graph :=
   | some (.leaf _ p) => if p < g.params.length then some { g with params := g.params.set p c } else none
   | _ => none
 
+/-- The object `n` is an elementary selection of class `k`. -/
+def kindOk (g : Graph) (n : NodeId) (k : Kind) : Bool :=
+  match g.nodes[n]? with
+  | some (.leaf k' _) => k' == k
+  | _ => false
+
+/-- `setAttrG` for a value of class `k` (refused when the object is of another class). -/
+def setAttrK (g : Graph) (n : NodeId) (k : Kind) (c : Content) : Option Graph :=
+  if kindOk g n k then setAttrG g n c else none
+
+def editParamK (g : Graph) (n : NodeId) (k : Kind) (c : Content) : Option Graph :=
+  if kindOk g n k then editParamG g n c else none
+
 /-! ## The value an object currently stands for (computable abstraction function) -/
 
 def mapOpt (f : Nat → Option Expr) : List Nat → Option (List Expr)
@@ -144,8 +157,8 @@ abbrev World := Nat → Env
 
 inductive Op where
   | base (o : SubsetEval.Op)
-  | setAttr (a : Var) (c : Content)
-  | editParam (a : Var) (c : Content)
+  | setAttr (a : Var) (k : Kind) (c : Content)
+  | editParam (a : Var) (k : Kind) (c : Content)
   | dataMut (m : DataMut) (d : DataId)
   deriving Repr
 
@@ -206,17 +219,17 @@ def stepBase (tbl : ClassTable) (env : Env) (s : State) : SubsetEval.Op → Stat
 
 def step (tbl : ClassTable) (w : World) (s : State) : Op → State × Obs
   | .base o => stepBase tbl (w s.epoch) s o
-  | .setAttr a c =>
+  | .setAttr a k c =>
     match s.vars[a]? with
     | some n =>
-      match setAttrG s.g n c with
+      match setAttrK s.g n k c with
       | some g' => ({ s with g := g' }, .none)
       | none => (s, .bad)
     | none => (s, .bad)
-  | .editParam a c =>
+  | .editParam a k c =>
     match s.vars[a]? with
     | some n =>
-      match editParamG s.g n c with
+      match editParamK s.g n k c with
       | some g' => ({ s with g := g' }, .none)
       | none => (s, .bad)
     | none => (s, .bad)
@@ -246,17 +259,17 @@ def step (tbl : ClassTable) (pol : Policy) (w : World) (st : State) : Op → Sta
   | .base o =>
     let r := SubsetEval.Impl.step tbl (w st.epoch) st.s o
     ({ st with s := r.1 }, r.2)
-  | .setAttr a c =>
+  | .setAttr a k c =>
     match st.s.vars[a]? with
     | some n =>
-      match setAttrG st.s.h.g n c with
+      match setAttrK st.s.h.g n k c with
       | some g' => (setG st g', ⟨.none, none⟩)
       | none => (st, ⟨.bad, none⟩)
     | none => (st, ⟨.bad, none⟩)
-  | .editParam a c =>
+  | .editParam a k c =>
     match st.s.vars[a]? with
     | some n =>
-      match editParamG st.s.h.g n c with
+      match editParamK st.s.h.g n k c with
       | some g' => (setG st g', ⟨.none, none⟩)
       | none => (st, ⟨.bad, none⟩)
     | none => (st, ⟨.bad, none⟩)
@@ -367,11 +380,11 @@ def progClean (tbl : ClassTable) (pol : Policy) (w : World) : Impl.State → Lis
 /-- A *structural* sufficient condition (no values involved): a parameter mutation is harmless if no
 memo entry belongs to an object that can reach the mutated object. -/
 def mutationUnseen (st : Impl.State) : Op → Bool
-  | .setAttr a _ =>
+  | .setAttr a _ _ =>
     match st.s.vars[a]? with
     | some n => st.s.h.memo.all fun x => !reachesNode st.s.h.g st.s.h.g.fuel x.key.node n
     | none => true
-  | .editParam a _ =>
+  | .editParam a _ _ =>
     match st.s.vars[a]? with
     | some n =>
       match st.s.h.g.nodes[n]? with
@@ -385,8 +398,8 @@ def progUnseen (tbl : ClassTable) (pol : Policy) (w : World) : Impl.State → Li
   | st, op :: ops => mutationUnseen st op && progUnseen tbl pol w (Impl.step tbl pol w st op).1 ops
 
 def Op.isParamMut : Op → Bool
-  | .setAttr _ _ => true
-  | .editParam _ _ => true
+  | .setAttr _ _ _ => true
+  | .editParam _ _ _ => true
   | _ => false
 
 /-! ## Statistics and histograms read masks through `to_mask` -/
